@@ -134,3 +134,33 @@ def validate_impl(scn, fixes, lines, workdir, name='TR', timeout=600):
                     if v not in info['viols']:
                         info['viols'].append(v)
     return {'runs': result, 'wall': wall, 'records': recs, 'out': out}
+
+
+def monitor_obs(scn, fixes, lines, workdir, name='OT', timeout=600, recs=None):
+    """Monitor-only pass (no implementation model): returns dict run -> list of violated tags"""
+    copy_specs(workdir)
+    tracegen.write_obs_trace(scn, fixes, workdir, name)
+    recs = recs if recs is not None else tracegen.convert(lines)
+    trace_file = os.path.join(workdir, name + '_trace.ndjson')
+    open(trace_file, 'w').write('\n'.join(json.dumps(r) for r in recs) + '\n')
+    out, rc, wall = run_tlc(workdir, name, workers=1, extra_env={'TRACE': trace_file}, timeout=timeout)
+    viols = extract_print(out, 'VIOLS')
+    reached = extract_print(out, 'REACHED')
+    if viols is None or reached is None:
+        return {'error': out[-3000:], 'rc': rc, 'wall': wall}
+    runs, cur = {}, None
+    bounds = []
+    for i, r in enumerate(recs, start=1):
+        if r['kind'] == 'run':
+            cur = r['run']
+            runs[cur] = {'viols': [], 'first': i + 1, 'last': None, 'complete': False}
+        elif r['kind'] == 'end':
+            runs[cur]['last'] = i
+            runs[cur]['complete'] = (i + 1) in set(reached)
+    for (l, vs) in viols:
+        for run, info in runs.items():
+            if info['first'] <= l <= (info['last'] or 10 ** 9) + 1:
+                for v in vs:
+                    if v not in info['viols']:
+                        info['viols'].append(v)
+    return {'runs': runs, 'wall': wall, 'out': out}
